@@ -9,6 +9,9 @@
 // This must go FIRST so that all the other modules see its macros.
 pub(crate) mod fmt;
 
+#[cfg(lora_rs_verif)]
+extern crate std;
+
 use core::default::Default;
 use heapless::Vec;
 
